@@ -10,29 +10,6 @@ def szRef (m : Raw C) : Sizes := fun k => match k with
   | .facetCorners => m.faces.flatten.length | .cells => m.cells.length
   | .cellCorners => m.cells.flatten.length | .cellFacets => 0
 
-/-- pointer pair derived by the importer for a list of elements whose default arity is `k` -/
-def ptrOf (k : Nat) (l : List (List Nat)) : List Nat × List Nat :=
-  if l = [] ∨ allLen k l = true then ([], []) else (l.map List.length, prefixSums 0 l)
-
-theorem elemsBuild (k : Nat) (l : List (List Nat)) :
-    buildElems l.flatten l.length (defaultPtr k l.length (ptrOf k l)) = some l := by
-  unfold ptrOf
-  by_cases hf : l = []
-  · simp [hf, buildElems, defaultPtr, mapOpt]
-  · by_cases ht : allLen k l = true
-    · simp only [hf, ht, or_true, if_true]
-      apply buildElems_default k
-      intro f hfm
-      have := List.all_eq_true.mp ht f hfm
-      simpa using this
-    · have e : (if l = [] ∨ allLen k l = true then (([], []) : List Nat × List Nat)
-            else (l.map List.length, prefixSums 0 l)) = (l.map List.length, prefixSums 0 l) := by
-        simp [hf, ht]
-      rw [e]
-      have hpos : ¬ ((l.map List.length).length = 0 ∧ 0 < l.length) := by simp [hf]
-      simp only [defaultPtr, hpos, if_false]
-      exact buildElems_ptr _
-
 set_option maxHeartbeats 4000000 in
 theorem sizesOf_ref (cd : Codec C) (m : Raw C) : sizesOf (refExportChunks cd m) = szRef m := by
   funext k
